@@ -16,6 +16,10 @@ def check_collapse_targets(prop, res, repo):
     """collapse only ever merges into the last bucket and only re-labels the candle being placed"""
     fi = repo.method("hexital.core.candle_manager", "CandleManager", "collapse_candles")
     fn = fi.node
+    from ..manager_rules import collapse_roles
+
+    R, _ = collapse_roles(fi)
+    ACC = R["acc"]
     aliases = {}
     for n in ast.walk(fn):
         if isinstance(n, ast.Assign) and len(n.targets) == 1 and isinstance(n.targets[0], ast.Name):
@@ -26,7 +30,7 @@ def check_collapse_targets(prop, res, repo):
     for c in merges:
         recv = ast.unparse(c.func.value)
         srcs = aliases.get(recv, [recv])
-        if all(s.replace(" ", "") == "candles_[-1]" for s in srcs):
+        if all(s.replace(" ", "") == f"{ACC}[-1]" for s in srcs):
             res.ok("R-LASTBUCKET", {"site": f"{fi.where} {norm_construct(c)}", "receiver": f"{recv} = candles_[-1]"}, nontrivial=norm_construct(c))
         else:
             res.fail("R-LASTBUCKET", finding(prop, "R-LASTBUCKET", fi, c, f"merge target {recv} is not the last bucket (candles_[-1]): an earlier, closed bucket would be changed"))
@@ -35,7 +39,7 @@ def check_collapse_targets(prop, res, repo):
             continue
         recv = ast.unparse(t.value)
         srcs = aliases.get(recv, [recv])
-        ok = all(s.replace(" ", "") in ("self.candles.pop(0)", "candles_[0]") for s in srcs)
+        ok = all(s.replace(" ", "") in ("self.candles.pop(0)", f"{ACC}[0]") for s in srcs)
         if ok:
             res.ok("R-LASTBUCKET", {"site": f"{fi.where} {norm_construct(st)}", "target": f"{recv} (the candle being placed)"})
         else:
